@@ -12,7 +12,7 @@ def alloc_query(pid, op, size=64, timeout=900):
 
 def plan(tier, seed):
     size = 64 if tier != 'thorough' else 256
-    return [alloc_query('C14', op, size) for op in OPS]
+    return [alloc_query('C14', op, size if op != 3 else max(size, 160)) for op in OPS]
 
 META = {
     'level': 'model_checking',
